@@ -123,11 +123,34 @@ fn push_word(code: &mut Vec<u8>, x: U256) {
     if z == 32 { code.push(0x5f); } else { code.push(0x5f + (32 - z) as u8); code.extend(&b[z..]); }
 }
 
+/// analyses the programs on 12 worker threads and reports every entry that does not lie inside its slot
+fn check_in_slot(name: &str, progs: Vec<(String, Vec<u8>)>) {
+    use crate::c08::analyze_layout;
+    std::panic::set_hook(Box::new(|_| {}));
+    let n = progs.len();
+    let workers = 12usize;
+    let chunks: Vec<&[(String, Vec<u8>)]> = progs.chunks((n + workers - 1) / workers.max(1)).collect();
+    let results: Vec<Vec<Option<Vec<(U256, usize, Option<usize>)>>>> = std::thread::scope(|s| {
+        let hs: Vec<_> = chunks.iter().map(|ch| s.spawn(move || ch.iter().map(|(_, c)| analyze_layout(c)).collect::<Vec<_>>())).collect();
+        hs.into_iter().map(|h| h.join().unwrap_or_default()).collect()
+    });
+    for (ch, rs) in chunks.iter().zip(results) {
+        for ((what, code), r) in ch.iter().zip(rs) {
+            let Some(slots) = r else { continue };
+            for (idx, off, width) in slots {
+                if off >= 256 || width.map_or(false, |w| off.checked_add(w).map_or(true, |e| e > 256)) {
+                    witness("C12", "layout.entry_inside_slot", format!("{what}: {code:02x?}"), format!("entry slot {idx} offset {off} width {width:?}"), "starts and ends inside the 256-bit slot".into());
+                }
+            }
+        }
+    }
+    println!("CASES {name} {n}");
+}
+
 /// width- and offset-carrying uses whose constant operand is out of the word's range: multipliers that are not (or fold to
 /// something that is not) a power of two below 2^256, SIGNEXTEND sizes, shifts and BYTE indices at and beyond 256
 #[test]
 fn c12_out_of_range_constant_operands_stay_inside_the_slot() {
-    use crate::c08::analyze_layout;
     let mask64 = (U256::ONE << 64u32) - U256::ONE;
     let big = [U256::ZERO, U256::ONE, U256::from(2u8), U256::from(3u8), U256::from(31u8), U256::from(32u8), U256::from(33u8), U256::from(64u8), U256::from(255u16), U256::from(256u16), U256::from(257u16), U256::from(512u16),
         U256::ONE << 32u32, U256::ONE << 64u32, (U256::ONE << 64u32) + U256::ONE, U256::ONE << 255u32, U256::MAX];
@@ -164,23 +187,12 @@ fn c12_out_of_range_constant_operands_stay_inside_the_slot() {
             }
         }
     }
-    let n = progs.len();
-    for (what, code) in progs {
-        if let Some(slots) = analyze_layout(&code) {
-            for (idx, off, width) in slots {
-                if off >= 256 || width.map_or(false, |w| off.checked_add(w).map_or(true, |e| e > 256)) {
-                    witness("C12", "layout.entry_inside_slot", format!("{what}: {code:02x?}"), format!("entry slot {idx} offset {off} width {width:?}"), "starts and ends inside the 256-bit slot".into());
-                }
-            }
-        }
-    }
-    println!("CASES c12_out_of_range_operands {n}");
+    check_in_slot("c12_out_of_range_operands", progs);
 }
 
 /// nested mask-and-shift: ((src & m1) >> s1) & m2, ((src >> s1) & m1) << s2, masks of masks, stored alone or OR-ed with a second field
 #[test]
 fn c12_nested_masks_and_shifts_stay_inside_the_slot() {
-    use crate::c08::analyze_layout;
     let m = |pos: u32, len: u32| -> U256 { if len >= 256 { U256::MAX << pos } else { ((U256::ONE << len) - U256::ONE) << pos } };
     let fields = [(0u32, 8u32), (0, 64), (8, 8), (64, 64), (96, 160), (128, 128), (192, 64), (240, 16), (248, 8), (3, 13), (250, 6)];
     let shifts = [0u16, 8, 64, 128, 192, 240, 248, 255];
@@ -207,15 +219,5 @@ fn c12_nested_masks_and_shifts_stay_inside_the_slot() {
             }
         }
     }
-    let n = progs.len();
-    for (what, code) in progs {
-        if let Some(slots) = analyze_layout(&code) {
-            for (idx, off, width) in slots {
-                if off >= 256 || width.map_or(false, |w| off.checked_add(w).map_or(true, |e| e > 256)) {
-                    witness("C12", "layout.entry_inside_slot", format!("{what}: {code:02x?}"), format!("entry slot {idx} offset {off} width {width:?}"), "starts and ends inside the 256-bit slot".into());
-                }
-            }
-        }
-    }
-    println!("CASES c12_nested_masks {n}");
+    check_in_slot("c12_nested_masks", progs);
 }
